@@ -11,7 +11,7 @@ def run(ctx):
         res = core.tlc(ctx, d, "Gen_ConfigLayout.tla", "Gen_ConfigLayout_sample.cfg", timeout=900, extra=["-seed", str(ctx.seed)])
         cells = res.behaviours
     else:
-        # all 696k cells do not fit one run (the cell list, the harness input and the trace are held at once): 14 seeded samples
+        # all 1.1M cells do not fit one run (the cell list, the harness input and the trace are held at once): 14 seeded samples
         cells, seen = [], set()
         for i in range(14):
             d = ctx.specdir("gen_cfg%d" % i)
@@ -19,7 +19,7 @@ def run(ctx):
                 k = json.dumps(b, sort_keys=True)
                 if k not in seen:
                     seen.add(k); cells.append(b)
-    ctx.say("  cells: %d (option cells with a fixed listener + listener cells with fixed options; 696k in the model)" % len(cells))
+    ctx.say("  cells: %d (option cells with a fixed listener + listener cells with fixed options; 1.1M in the model)" % len(cells))
     hb = core.build_harness(ctx)
     trace, summ = core.run_harness(ctx, hb, "config", cells, "config", timeout=3000)
     for inc in summ["incidents"]:
